@@ -35,6 +35,24 @@ from physt._util import deprecation_alias, real_edges
 from physt.histogram1d import Histogram1D
 from physt.histogram_nd import HistogramND
 
+
+def _square_difference(left, right) -> np.ndarray:
+    """right**2 - left**2 of bin edges, without losing a thin ring far out to cancellation."""
+    left, right = real_edges(left), real_edges(right)
+    return (right - left) * (right + left)
+
+
+def _cube_difference(left, right) -> np.ndarray:
+    """right**3 - left**3 of bin edges (a thin shell far out)."""
+    left, right = real_edges(left), real_edges(right)
+    return (right - left) * (right * right + right * left + left * left)
+
+
+def _cosine_difference(left, right) -> np.ndarray:
+    """cos(left) - cos(right) of bin edges (a narrow cap at a pole)."""
+    left, right = real_edges(left), real_edges(right)
+    return 2 * np.sin((left + right) / 2) * np.sin((right - left) / 2)
+
 from . import histogram_nd
 
 if TYPE_CHECKING:
@@ -190,7 +208,7 @@ class RadialHistogram(TransformedHistogramMixin, Histogram1D):
 
     @property
     def bin_sizes(self):
-        return (real_edges(self.bin_right_edges) ** 2 - real_edges(self.bin_left_edges) ** 2) * np.pi
+        return _square_difference(self.bin_left_edges, self.bin_right_edges) * np.pi
 
     @classmethod
     def _transform_correct_dimension(cls, value) -> np.ndarray:
@@ -244,8 +262,8 @@ class PolarHistogram(TransformedHistogramMixin, HistogramND):
 
     @property
     def bin_sizes(self):
-        sizes = 0.5 * (
-            real_edges(self.get_bin_right_edges(0)) ** 2 - real_edges(self.get_bin_left_edges(0)) ** 2
+        sizes = 0.5 * _square_difference(
+            self.get_bin_left_edges(0), self.get_bin_right_edges(0)
         )
         sizes = np.outer(sizes, self.get_bin_widths(1))
         return sizes
@@ -270,8 +288,8 @@ class SphericalSurfaceHistogram(TransformedHistogramMixin, HistogramND):
 
     @property
     def bin_sizes(self):
-        sizes1 = np.cos(real_edges(self.get_bin_left_edges(0))) - np.cos(
-            real_edges(self.get_bin_right_edges(0))
+        sizes1 = _cosine_difference(
+            self.get_bin_left_edges(0), self.get_bin_right_edges(0)
         )
         sizes2 = self.get_bin_widths(1)
         return reduce(np.multiply, np.ix_(sizes1, sizes2))
@@ -327,10 +345,10 @@ class SphericalHistogram(TransformedHistogramMixin, HistogramND):
     @property
     def bin_sizes(self):
         sizes1 = (
-            real_edges(self.get_bin_right_edges(0)) ** 3 - real_edges(self.get_bin_left_edges(0)) ** 3
-        ) / 3
-        sizes2 = np.cos(real_edges(self.get_bin_left_edges(1))) - np.cos(
-            real_edges(self.get_bin_right_edges(1))
+            _cube_difference(self.get_bin_left_edges(0), self.get_bin_right_edges(0)) / 3
+        )
+        sizes2 = _cosine_difference(
+            self.get_bin_left_edges(1), self.get_bin_right_edges(1)
         )
         sizes3 = self.get_bin_widths(2)
         # Hopefully correct
@@ -409,8 +427,8 @@ class CylindricalHistogram(TransformedHistogramMixin, HistogramND):
 
     @property
     def bin_sizes(self):
-        sizes1 = 0.5 * (
-            real_edges(self.get_bin_right_edges(0)) ** 2 - real_edges(self.get_bin_left_edges(0)) ** 2
+        sizes1 = 0.5 * _square_difference(
+            self.get_bin_left_edges(0), self.get_bin_right_edges(0)
         )
         sizes2 = self.get_bin_widths(1)
         sizes3 = self.get_bin_widths(2)
